@@ -38,7 +38,7 @@ META = {
 }
 CASES = {'quick': 2000, 'thorough': 150000}
 ATTACH = {'quick': 400, 'thorough': 40000}
-SECONDS = {'quick': 60, 'thorough': 600}
+SECONDS = {'quick': 300, 'thorough': 600}
 
 TINY_OPS = [['c', 0, 0], ['c', 0, 1], ['c', 1, 0], ['c', 1, 2], ['u', 0, 0], ['u', 1, 0], ['nc', 1, 0], ['nu', 0, 1],
             ['add', 0, []], ['add', 1, [0, 1]], ['rm', 0], ['rm', 1], ['c', 0, 2], ['u', 0, 2]]
